@@ -42,7 +42,9 @@ Record Rat (s : sdb) (r : rstate) (a : addr) : Prop := {
   A_good : forall o, lookup s a = Some o -> obj_good (txs s) (cur_store s) a o;
   A_wr : r_wr r a = false -> rs (r_get r a) = false ->
          (forall k, stor (cur_store s) a k = stor (txs s) a k) /\
-         (forall o, lookup s a = Some o -> trivial_dirty (txs s) a o)
+         (forall o, lookup s a = Some o -> trivial_dirty (txs s) a o);
+  (* a blocked account's bank balance is the one recorded at the last successful flush *)
+  A_base : In a (blocked (cf s)) -> bank_bal (cur_store s) a = r_base r a
 }.
 
 Definition R (s : sdb) (r : rstate) : Prop := auxeq (aux s) (r_aux r) /\ forall a, Rat s r a.
@@ -71,6 +73,8 @@ Lemma R_wr s r : R s r -> forall a, r_wr r a = false -> rs (r_get r a) = false -
                    (forall k, stor (cur_store s) a k = stor (txs s) a k) /\
                    (forall o, lookup s a = Some o -> trivial_dirty (txs s) a o).
 Proof. intros [_ H] a. apply (A_wr s r a (H a)). Qed.
+Lemma R_base s r : R s r -> forall a, In a (blocked (cf s)) -> bank_bal (cur_store s) a = r_base r a.
+Proof. intros [_ H] a. apply (A_base s r a (H a)). Qed.
 
 Lemma auxeq_sym x y : auxeq x y -> auxeq y x.
 Proof. intros (A&B&C&D). repeat split; intros; congruence. Qed.
@@ -127,6 +131,7 @@ Proof.
     destruct (lookup s a) as [o|] eqn:Hs'; [|contradiction].
     intros k v Hv. rewrite (ole_comm _ _ _ _ k L). destruct L as (_&_&_&_&L5).
     destruct (L5 k) as [_ [E|(E1&E2&_)]]; [apply (W2 o eq_refl k v); congruence | congruence].
+  - intros Hb. rewrite <- S. apply (R_base s r HR a). rewrite C. exact Hb.
 Qed.
 
 Lemma the_obj_match s r a : R s r -> omatch (the_obj s a) (r_get r a).
@@ -139,7 +144,8 @@ Qed.
 Definition unch (s s' : sdb) (r r' : rstate) (x : addr) : Prop :=
   lookup s' x = lookup s x /\ dirt s' x = dirt s x /\
   accs (cur_store s') x = accs (cur_store s) x /\ (forall k, stor (cur_store s') x k = stor (cur_store s) x k) /\
-  r_accs r' x = r_accs r x /\ (forall k, r_stor r' x k = r_stor r x k) /\ r_wr r' x = r_wr r x.
+  r_accs r' x = r_accs r x /\ (forall k, r_stor r' x k = r_stor r x k) /\ r_wr r' x = r_wr r x /\
+  r_base r' x = r_base r x.
 
 Definition updd (s' : sdb) (r' : rstate) (x : addr) : Prop :=
   exists o' y', lookup s' x = Some o' /\ r_accs r' x = Some y' /\ omatch o' y' /\
@@ -148,11 +154,12 @@ Definition updd (s' : sdb) (r' : rstate) (x : addr) : Prop :=
     (forall k, r_stor r' x k = st (txs s') x o' k) /\
     obj_good (txs s') (cur_store s') x o' /\
     (r_wr r' x = false -> rs y' = false ->
-       (forall k, stor (cur_store s') x k = stor (txs s') x k) /\ trivial_dirty (txs s') x o').
+       (forall k, stor (cur_store s') x k = stor (txs s') x k) /\ trivial_dirty (txs s') x o') /\
+    (In x (blocked (cf s')) -> bank_bal (cur_store s') x = r_base r' x).
 
-Lemma Rat_unch s s' r r' x : Rat s r x -> txs s' = txs s -> unch s s' r r' x -> Rat s' r' x.
+Lemma Rat_unch s s' r r' x : Rat s r x -> txs s' = txs s -> cf s' = cf s -> unch s s' r r' x -> Rat s' r' x.
 Proof.
-  intros HA T (U1&U2&U3&U4&U5&U6&U7). constructor.
+  intros HA T CF (U1&U2&U3&U4&U5&U6&U7&U8). constructor.
   - rewrite U2. apply (A_cnt s r x HA).
   - rewrite U1, U2. apply (A_dl s r x HA).
   - rewrite U1, U5. apply (A_acc s r x HA).
@@ -168,11 +175,41 @@ Proof.
     destruct (A_wr s r x HA Hw Hs) as [W1 W2]. rewrite T. split.
     + intros k. rewrite U4. apply W1.
     + intros o Hl. rewrite U1 in Hl. apply W2; exact Hl.
+  - intros Hb. unfold bank_bal. rewrite U3, U8. apply (A_base s r x HA). rewrite <- CF. exact Hb.
+Qed.
+
+(** the same with the blocked-account clause given directly *)
+Lemma Rat_unchB s s' r r' x :
+  Rat s r x -> txs s' = txs s ->
+  lookup s' x = lookup s x -> dirt s' x = dirt s x ->
+  accs (cur_store s') x = accs (cur_store s) x -> (forall k, stor (cur_store s') x k = stor (cur_store s) x k) ->
+  r_accs r' x = r_accs r x -> (forall k, r_stor r' x k = r_stor r x k) -> r_wr r' x = r_wr r x ->
+  (In x (blocked (cf s')) -> bank_bal (cur_store s') x = r_base r' x) ->
+  Rat s' r' x.
+Proof.
+  intros HA T U1 U2 U3 U4 U5 U6 U7 B.
+  constructor.
+  - rewrite U2. apply (A_cnt s r x HA).
+  - rewrite U1, U2. apply (A_dl s r x HA).
+  - rewrite U1, U5. apply (A_acc s r x HA).
+  - intros k. rewrite U1, U6, T, U4. apply (A_sto s r x HA k).
+  - intros Hl k. rewrite U4, T. apply (A_absent s r x HA). congruence.
+  - intros o Hl Hcl. rewrite U1 in Hl. rewrite U2 in Hcl. pose proof (A_written s r x HA o Hl Hcl) as Hw.
+    unfold obj_written in *. rewrite T, U3. destruct (suicided o).
+    + destruct Hw as [W1 W2]. split; [exact W1|]. intros k. rewrite U4. apply W2.
+    + destruct Hw as [W1 W2]. split; [exact W1|]. intros k. rewrite U4. apply W2.
+  - intros o Hl. rewrite U1 in Hl. destruct (A_good s r x HA o Hl) as (G1&G2&G3). rewrite T.
+    split; [|split; assumption]. intros Hs k Hd. rewrite U4. apply G1; assumption.
+  - intros Hw Hs. rewrite U7 in Hw. unfold r_get in Hs. rewrite U5 in Hs.
+    destruct (A_wr s r x HA Hw Hs) as [W1 W2]. rewrite T. split.
+    + intros k. rewrite U4. apply W1.
+    + intros o Hl. rewrite U1 in Hl. apply W2; exact Hl.
+  - exact B.
 Qed.
 
 Lemma Rat_gen s' r' x : updd s' r' x -> Rat s' r' x.
 Proof.
-  intros (o'&y'&L&A&M&Hp&Hwr&St&G&W). constructor.
+  intros (o'&y'&L&A&M&Hp&Hwr&St&G&W&B). constructor.
   - exact Hp.
   - intros _. congruence.
   - rewrite L, A. exact M.
@@ -182,13 +219,14 @@ Proof.
   - intros o Hl. rewrite L in Hl. inversion Hl; subst. exact G.
   - intros Hw Hs. unfold r_get in Hs. rewrite A in Hs. destruct (W Hw Hs) as [W1 W2]. split; [exact W1|].
     intros o Hl. rewrite L in Hl. inversion Hl; subst. exact W2.
+  - exact B.
 Qed.
 
 Lemma R_step s s' r r' :
-  R s r -> txs s' = txs s -> auxeq (aux s') (r_aux r') ->
+  R s r -> txs s' = txs s -> cf s' = cf s -> auxeq (aux s') (r_aux r') ->
   (forall x, unch s s' r r' x \/ updd s' r' x) -> R s' r'.
 Proof.
-  intros [_ HR] T X H. split; [exact X|]. intros x. destruct (H x) as [U|G].
+  intros [_ HR] T CF X H. split; [exact X|]. intros x. destruct (H x) as [U|G].
   - eapply Rat_unch; eauto.
   - apply Rat_gen; exact G.
 Qed.
@@ -237,13 +275,15 @@ Proof.
 Qed.
 Lemma get_or_new_aux s a : aux (get_or_new s a) = aux s.
 Proof. unfold get_or_new. destruct (lookup s a); [apply cached_aux|]. unfold set_obj; sdb_simp. apply push_aux. Qed.
+Lemma get_or_new_cf s a : cf (get_or_new s a) = cf s.
+Proof. unfold get_or_new. destruct (lookup s a); [apply cached_cf|]. unfold set_obj; sdb_simp. apply push_cf. Qed.
 Lemma get_or_new_calls s a : calls (get_or_new s a) = calls s.
 Proof. unfold get_or_new. destruct (lookup s a); [apply cached_calls|]. unfold set_obj; sdb_simp. apply push_calls. Qed.
 
 (** a journaled update of one object (after getOrNewStateObject) *)
 Lemma mutator_R s r r' a e o' y' :
   R s r -> dirtied e = Some a ->
-  r_aux r' = r_aux r ->
+  r_aux r' = r_aux r -> (forall x, r_base r' x = r_base r x) ->
   (forall x, x <> a -> r_accs r' x = r_accs r x /\ (forall k, r_stor r' x k = r_stor r x k) /\ r_wr r' x = r_wr r x) ->
   r_accs r' a = Some y' -> omatch o' y' ->
   (forall k, r_stor r' a k = st (txs s) a o' k) ->
@@ -252,12 +292,13 @@ Lemma mutator_R s r r' a e o' y' :
      (forall k, stor (cur_store s) a k = stor (txs s) a k) /\ trivial_dirty (txs s) a o') ->
   R (set_obj (push (get_or_new s a) e) a o') r'.
 Proof.
-  intros HR Hd Hx Hoff Ha Hm Hst Hg Hw.
+  intros HR Hd Hx Hbase Hoff Ha Hm Hst Hg Hw.
   set (s' := set_obj (push (get_or_new s a) e) a o').
+  assert (CF : cf s' = cf s) by (subst s'; unfold set_obj; sdb_simp; rewrite push_cf; apply get_or_new_cf).
   assert (T : txs s' = txs s) by (subst s'; unfold set_obj; sdb_simp; rewrite push_txs; apply get_or_new_txs).
   assert (Cu : cur_store s' = cur_store s).
   { subst s'. unfold cur_store at 1. unfold set_obj; sdb_simp. rewrite push_cache, push_txs. apply get_or_new_cur. }
-  apply (R_step s s' r r' HR T).
+  apply (R_step s s' r r' HR T CF).
   - subst s'. unfold set_obj; sdb_simp. rewrite push_aux, get_or_new_aux, Hx. apply HR.
   - intros x. destruct (Z.eq_dec x a) as [->|Hne].
     + right. unfold updd. exists o', y'. rewrite T, Cu.
@@ -269,7 +310,8 @@ Proof.
       destruct Hpos as (c & Hc & Hp).
       split; [intros c0 Hc0; rewrite Hc in Hc0; inversion Hc0; lia|].
       split; [intros [E|E]; rewrite Hc in E; inversion E; lia|].
-      split; [exact Hst | split; [exact Hg | exact Hw]].
+      split; [exact Hst|]. split; [exact Hg|]. split; [exact Hw|].
+      intros Hb. rewrite Hbase. apply (R_base s r HR a). rewrite <- CF. exact Hb.
     + left. unfold unch. destruct (Hoff x Hne) as (O1&O2&O3). rewrite Cu.
       split; [subst s'; rewrite lookup_set_other, lookup_push by assumption; apply get_or_new_lookup_other; assumption|].
       split; [subst s'; unfold set_obj; sdb_simp; rewrite push_dirt, Hd; unfold dinc; rewrite upd_other by assumption; apply get_or_new_dirt_other; assumption|].
